@@ -93,22 +93,40 @@ def confirm(wt, sid, prop):
     return 0
 
 
-def run(sid, checks):
+APPLY_WT = "/tmp/verif_seeded_wt"
+
+
+def run(sid, checks, in_place=False):
+    """in_place=False (default): the patch is applied to a scratch worktree of /repo's HEAD and the checks
+    are pointed at it (VERIF_REPO), so /repo itself stays clean and other runs are not disturbed;
+    in_place=True: git -C /repo apply / checkout, exactly as a user of the checks would do."""
     d = os.path.join(SEEDED, sid)
     meta = json.load(open(os.path.join(d, "meta.json")))
     checks = checks or [meta["breaks_property"]]
-    rc, o = sh("git status --short", cwd="/repo")
-    if o.strip():
-        print("/repo is not clean:", o)
-        return 2
-    rc, o = sh(f"git apply {os.path.join(d, 'patch.diff')}", cwd="/repo")
+    patch = os.path.join(d, "patch.diff")
+    if in_place:
+        tree = "/repo"
+        rc, o = sh("git status --short", cwd="/repo")
+        if o.strip():
+            print("/repo is not clean:", o)
+            return 2
+    else:
+        tree = APPLY_WT + "_" + sid
+        sh(f"git -C /repo worktree remove --force {tree}")
+        sh("git -C /repo worktree prune")
+        rc, o = sh(f"git -C /repo worktree add -q --detach {tree} HEAD")
+        if rc != 0:
+            print("cannot create scratch worktree:", o)
+            return 2
+    rc, o = sh(f"git apply {patch}", cwd=tree)
     if rc != 0:
         print("patch does not apply:", o)
         return 2
+    env = {} if in_place else {"VERIF_REPO": tree, "VERIF_EVIDENCE_DIR": "/tmp/verif_seeded_evidence_" + sid}
     try:
         for c in checks:
             t0 = time.time()
-            rc, o = sh(f"/venv/bin/python checks/check.py {c} --tier quick", cwd=ROOT, timeout=3600)
+            rc, o = sh(f"/venv/bin/python checks/check.py {c} --tier quick", cwd=ROOT, env=env, timeout=3600)
             viol = [ln for ln in o.splitlines() if ln.startswith("VIOLATION")]
             clauses = sorted({w.split("=", 1)[1] for ln in viol for w in ln.split() if w.startswith("clause=")})
             meta["checks"][c] = {"exit": rc, "violations": len(viol), "clauses": clauses, "wall_s": round(time.time() - t0, 1),
@@ -117,7 +135,11 @@ def run(sid, checks):
             if rc not in (0, 1):
                 print(o[-1500:])
     finally:
-        sh("git checkout -- .", cwd="/repo")
+        if in_place:
+            sh("git checkout -- .", cwd="/repo")
+        else:
+            sh(f"git -C /repo worktree remove --force {tree}")
+            sh("rm -rf /tmp/verif_seeded_evidence_" + sid)
     with open(os.path.join(d, "meta.json"), "w") as f:
         json.dump(meta, f, indent=1)
     return 0
@@ -159,4 +181,4 @@ if __name__ == "__main__":
     if sys.argv[1] == "confirm":
         sys.exit(confirm(sys.argv[2], sys.argv[3], sys.argv[4]))
     if sys.argv[1] == "run":
-        sys.exit(run(sys.argv[2], sys.argv[3:]))
+        sys.exit(run(sys.argv[2], [a for a in sys.argv[3:] if a != "--in-place"], in_place="--in-place" in sys.argv))
